@@ -13,8 +13,8 @@
    Evaluation semantics: Eval.eval_expr (generic in the number type and in every arithmetic operation). *)
 From Coq Require Import String Ascii List Bool Arith ZArith.
 Import ListNotations.
-Require Import PyBase PyStr Lex Symbols ParseEq ParseModel GLex GNorm Graph GraphFacts GraphTheorems GraphEvalFacts GraphEvalWf GraphExamples.
-Require Import Denorm GraphParseFacts GraphScriptFacts GraphParseExamples LayoutExamples.
+Require Import PyBase PyStr Lex Symbols ParseEq ParseModel GLex GNorm Graph GraphFacts GraphTheorems GraphEvalFacts GraphEvalWf GraphExamples GTokenise GTokeniseFacts.
+Require Import Denorm GraphParseFacts GraphScriptFacts GraphSrcWf GraphSrcGraph GraphParseExamples LayoutExamples.
 Require Import Split Merge ParseContribFacts.
 Require Import Solver Eval EvalFacts.
 Open Scope string_scope.
@@ -48,6 +48,24 @@ Theorem C20_verbatim_blocks_instance :
   symbols_to_graph_M [ex_verbatim_noeq] = Ret empty_graph.
 Proof. exact verbatim_blocks_ignored. Qed.
 Print Assumptions C20_verbatim_blocks_instance.
+
+(* ---- the domain of the theorems as a closed, decidable predicate on TEXTS ---- *)
+(* GTokenise.tokenise reads a text back into a token list with the model of term_re; it is sound and complete for neq_wf: it
+   succeeds exactly on the well-formed normalised equations.  (This is the reader the correspondence K_domain runs on every
+   real equation: no witness supplied from outside.) *)
+Theorem C20_tokenise_sound_complete : forall e : string,
+  (forall q, tokenise e = Some q -> neq_text q = e /\ neq_wf q = true) /\
+  ((exists q, tokenise e = Some q) <-> (exists q, neq_wf q = true /\ neq_text q = e)).
+Proof. exact (fun e => conj (tokenise_sound e) (tokenise_iff e)). Qed.
+Print Assumptions C20_tokenise_sound_complete.
+(* for EVERY symbol list whose endogenous equations pass the check, whatever else it contains: the graph is built, never
+   raises, and is the graph of the equations as read back — all edge / node theorems above then apply to `tokenised symbols` *)
+Theorem C20_graph_of_checked : forall symbols : list symbol,
+  checked symbols = true ->
+  symbols_to_graph_M symbols = Ret (graph_of (tokenised symbols)) /\
+  map neq_text (tokenised symbols) = equations_of symbols /\ forallb neq_wf (tokenised symbols) = true.
+Proof. exact graph_of_checked. Qed.
+Print Assumptions C20_graph_of_checked.
 
 (* edge x -> n  iff  some equation has n among the ids of its left-hand side and x among the ids of its right-hand side *)
 Theorem C20_edges_exact : forall (qs : list neq) (x n : string),
@@ -244,6 +262,43 @@ Theorem C20_script_graph_satisfiable :
 Proof. exact ex_script_hyps. Qed.
 Print Assumptions C20_script_graph_satisfiable.
 
+(* ---- SOURCE statements: conditions on the source side only ---- *)
+(* a statement  NAME[k] = rhs  spelled in the documented syntax — terms as NAME, { NAME }, < NAME > with any blanks inside, any
+   index-bracket layout, [0] written or not (layout `lay`) — under the decidable dq_ok (it lexes token by token; no "#"; round
+   brackets balanced; a newline only inside them; braces only around parameters) and sep_ok (names not keyword-prefixed; no
+   keyword glued to a braced term as in `if{a}`; no keyword right after "<") produces a WELL-FORMED normalised equation:
+   nothing is assumed about the parser's output any more *)
+Theorem C20_source_statement_wf : forall (lay : layout) (q : neq),
+  dq_ok lay q = true -> sep_ok lay (nrhs q) = true -> neq_wf q = true.
+Proof. exact dq_ok_neq_wf. Qed.
+Print Assumptions C20_source_statement_wf.
+Theorem C20_source_statement_graph : forall (lay : layout) (y : string) (ky : Z) (ws r : list ntok) (syms : list symbol),
+  dq_ok lay (mkNeq (NTerm y (IInt ky) :: ws) r) = true -> sep_ok lay r = true -> no_function_named y r = true ->
+  parse_equation_M (denorm_text lay (mkNeq (NTerm y (IInt ky) :: ws) r)) = POk syms ->
+  symbols_to_graph_M syms = Ret (graph_of [mkNeq (NTerm y (IInt ky) :: ws) r]) /\ neq_wf (mkNeq (NTerm y (IInt ky) :: ws) r) = true.
+Proof. exact source_statement_graph. Qed.
+Print Assumptions C20_source_statement_graph.
+(* whole scripts: splitter -> parse_equation per statement -> merge -> graph; edges exactly those of the statements *)
+Theorem C20_source_script_graph : forall (lay : layout) (qs : list neq) (s : string) (syms : list symbol),
+  Forall (stmt_src_q lay) qs ->
+  split_M s = (map (denorm_text lay) qs, None) ->
+  parse_model_nocheck s = POk syms ->
+  exists g, symbols_to_graph_M syms = Ret g /\
+    forall x n, is_edge g x n = true <-> exists q, In q qs /\ In n (nids (nlhs q)) /\ In x (nids (nrhs q)).
+Proof. exact source_script_graph. Qed.
+Print Assumptions C20_source_script_graph.
+Theorem C20_source_script_satisfiable :
+  ex_src_script = "Y = X[ -1 ] + Z * { a}" ++ nl_s ++ "Z = Y < max(X[ +1 ])" /\
+  Forall (stmt_src_q ex_src_lay) [ex_sq1; ex_sq2b] /\
+  split_M ex_src_script = (map (denorm_text ex_src_lay) [ex_sq1; ex_sq2b], None) /\
+  exists syms, parse_model_nocheck ex_src_script = POk syms /\
+    match symbols_to_graph_M syms with
+    | Ret g => in_edges g "Y[t]" = ["X[t-1]"; "Z[t]"; "a[t]"] /\ in_edges g "Z[t]" = ["Y[t]"; "max"; "X[t+1]"]
+    | Raise _ => False
+    end.
+Proof. exact ex_src_script_hyps. Qed.
+Print Assumptions C20_source_script_satisfiable.
+
 (* ---- hypotheses are satisfiable; what does not hold of the code as it is ---- *)
 Theorem C20_hypotheses_satisfiable :
   forallb neq_wf [ex_q1; ex_q2] = true /\
@@ -261,7 +316,7 @@ Theorem C20_space_before_index_refuted :
 Proof. exact space_before_index_graph_refuted. Qed.
 Print Assumptions C20_space_before_index_refuted.
 
-(* outside the hypothesis neq_wf (reachable only with check_syntax=False): re-tokenising glues a keyword to a term *)
+(* outside sep_ok / neq_wf (reachable only with check_syntax=False): a keyword glued to a braced parameter; re-tokenising reads `ifa` *)
 Theorem C20_wellformedness_needed_refuted :
   exists script symbols g,
     parse_model_nocheck script = POk symbols /\ symbols_to_graph_M symbols = Ret g /\
